@@ -64,6 +64,9 @@ pub struct Transport {
   pub content_length: bool,
   /// pad the body with this many bytes of whitespace/filler (oversize tests)
   pub pad: u32,
+  /// the connection breaks: the body stream yields an I/O error after this many chunks
+  #[serde(default)]
+  pub break_after: Option<u32>,
 }
 
 #[derive(Clone, Debug, Serialize, Deserialize, PartialEq)]
@@ -144,6 +147,7 @@ fn gen_transport(rng: &mut Rng, c24: bool) -> Transport {
     stall_after: None,
     content_length: true,
     pad: 0,
+    break_after: None,
   };
   if rng.chance(1, 2) {
     let n = 1 + rng.usize(4);
@@ -172,6 +176,13 @@ fn gen_transport(rng: &mut Rng, c24: bool) -> Transport {
         t.pad = MAX_BODY + 1 + rng.below(5000) as u32;
         t.content_length = false;
         t.chunks = vec![1000];
+      }
+      3 => {
+        t.break_after = Some(rng.below(3) as u32);
+        if t.chunks.is_empty() {
+          t.chunks = vec![1 + rng.below(9) as u16];
+        }
+        t.content_length = false;
       }
       _ => {}
     }
@@ -469,10 +480,14 @@ fn make_request(b: &Built, t: &Transport) -> Request<Body> {
   if let Some(ct) = &b.content_type {
     builder = builder.header("content-type", ct);
   }
-  if t.content_length && t.stall_after.is_none() {
+  if t.content_length && t.stall_after.is_none() && t.break_after.is_none() {
     builder = builder.header("content-length", total.to_string());
   }
-  let body = if let Some(k) = t.stall_after {
+  let body = if let Some(k) = t.break_after {
+    let mut items: Vec<Result<Bytes, std::io::Error>> = chunks.into_iter().take(k as usize).map(Ok).collect();
+    items.push(Err(std::io::Error::new(std::io::ErrorKind::ConnectionReset, "connection reset by peer")));
+    Body::from_stream(stream::iter(items))
+  } else if let Some(k) = t.stall_after {
     let head: Vec<Result<Bytes, std::io::Error>> = chunks.into_iter().take(k as usize).map(Ok).collect();
     Body::from_stream(stream::iter(head).chain(stream::pending()))
   } else if t.chunks.is_empty() && t.content_length {
@@ -612,6 +627,10 @@ async fn run_async(case: &HttpCase, dir: &Path, stats: &mut Stats) -> RunOut {
     if stalled {
       stats.inc("fault.stall");
     }
+    let broken = t.break_after.is_some();
+    if broken {
+      stats.inc("fault.connection_reset_mid_body");
+    }
     if oversize {
       stats.inc(if t.content_length { "fault.oversize_declared" } else { "fault.oversize_streamed" });
     }
@@ -629,12 +648,13 @@ async fn run_async(case: &HttpCase, dir: &Path, stats: &mut Stats) -> RunOut {
     grams.push(format!("{}:{}", name, st.as_u16()));
     let body_txt = String::from_utf8_lossy(&resp.body).chars().take(200).collect::<String>();
     let what = format!(
-      "{} {} (chunks {:?}, content-length {}, {} bytes{}{})",
+      "{} {} (chunks {:?}, content-length {}, {} bytes{}{}{})",
       built.method,
       built.path,
       t.chunks,
       t.content_length && !stalled,
       total_len,
+      if t.break_after.is_some() { ", connection breaks mid-body" } else { "" },
       if stalled { ", client stalls" } else { "" },
       if oversize { ", over the body limit" } else { "" }
     );
@@ -669,7 +689,15 @@ async fn run_async(case: &HttpCase, dir: &Path, stats: &mut Stats) -> RunOut {
       _ => true,
     };
     let reads_body = !matches!(req.kind, ReqKind::Commit | ReqKind::Refresh | ReqKind::Compact | ReqKind::Stats | ReqKind::Inspect | ReqKind::Healthz | ReqKind::Raw { .. });
-    if stalled && total_len > 0 && reads_body {
+    if broken && reads_body {
+      // the body ends in a transport error: the request must still be answered,
+      // with the structured error body (shape is checked above) and never 2xx
+      // for a write whose body did not arrive completely
+      if !(matches!(req.kind, ReqKind::Add { .. }) && !initialised) {
+        expect = Some(("body broke off -> 4xx", vec![400, 408, 413, 422, 499]));
+        stats.inc("probe.broken_body_checked");
+      }
+    } else if stalled && total_len > 0 && reads_body {
       // handlers that read the body wait for it; /add before /init answers 404
       // first, and a streaming /add may meet a complete invalid line earlier
       if !(matches!(req.kind, ReqKind::Add { .. }) && !initialised) {
@@ -694,7 +722,7 @@ async fn run_async(case: &HttpCase, dir: &Path, stats: &mut Stats) -> RunOut {
         expect = Some(("oversized body -> 413", if body_valid || t.content_length { vec![413] } else { vec![400, 413, 422] }));
         stats.inc("probe.oversize_checked");
       }
-    } else if !stalled && !oversize {
+    } else if !stalled && !oversize && !(broken && reads_body) {
       expect = match &req.kind {
         ReqKind::Healthz => Some(("healthz", vec![200])),
         ReqKind::Init { bad: true } => Some(("bad schema -> 4xx", vec![400, 422])),
@@ -1029,7 +1057,7 @@ impl Engine for HttpEngine {
   }
   fn probes(&self) -> Vec<&'static str> {
     if self.c24 {
-      vec!["fault.chunk_split", "fault.stall", "fault.oversize_declared", "fault.oversize_streamed", "probe.stall_hit_simulated_timeout", "probe.oversize_checked", "checks.healthz"]
+      vec!["fault.chunk_split", "fault.stall", "fault.oversize_declared", "fault.oversize_streamed", "fault.connection_reset_mid_body", "probe.stall_hit_simulated_timeout", "probe.oversize_checked", "probe.broken_body_checked", "checks.healthz"]
     } else {
       vec!["fault.chunk_split", "checks.contents_after_commit", "op.add", "op.bulk", "op.delete", "op.commit"]
     }
